@@ -186,6 +186,9 @@ func (e *Exec) callBuiltin(b *ssa.Builtin, args []Value, c *ssa.CallCommon) Valu
 		}
 		return p
 	}
+	if len(args) == 0 {
+		e.ooe("builtin %s()", b.Name())
+	}
 	e.ooe("builtin %s on %T", b.Name(), args[0])
 	return nil
 }
